@@ -5,7 +5,7 @@
 //
 //	c01 gen    -seed S -n N [-from I] [-unis U] [-knobs K] -out cases [-replaydir D] [-shrink M]
 //	c01 one    -seed S -index I [-uni J] [-knobs K] [-exact 1] [-v 1]
-//	c01 corpus -in corpus.tsv -out cases [-replaydir D]
+//	c01 replay -in FILE|DIR [-out cases] [-replaydir D] [-v 1]   (self-contained replay / corpus files)
 //	c01 shrink -seed S -index I [-uni J] [-knobs K]
 package main
 
@@ -112,6 +112,7 @@ type replay struct {
 	Violations  []string          `json:"violations,omitempty"`
 	ShrunkFrom  string            `json:"shrunk_from,omitempty"`
 	ShrinkSteps []string          `json:"shrink_steps,omitempty"`
+	Case        *savedCase        `json:"case,omitempty"`
 }
 
 func raw(b []byte) json.RawMessage {
@@ -154,6 +155,7 @@ func mkReplay(c *fedlab.Case, v *fedlab.Verdict, exact bool, lab *fedlab.Lab) *r
 	rp.Violations = append(rp.Violations, v.InvalidRequests...)
 	rp.Violations = append(rp.Violations, v.NotOwned...)
 	rp.Violations = append(rp.Violations, v.ReprIncomplete...)
+	rp.Case = saveCase(c)
 	return rp
 }
 
@@ -288,40 +290,50 @@ func cmdOne(a map[string]string) {
 	fmt.Println("OK")
 }
 
-// corpus lines: seed TAB index TAB uni TAB knobs (exact)
-func cmdCorpus(a map[string]string) {
+// cmdReplay re-runs self-contained replay files: -in is one file or a directory of *.json.
+func cmdReplay(a map[string]string) {
 	out := common.NewOut(a["out"])
 	defer out.Close()
-	data, err := os.ReadFile(a["in"])
-	if err != nil {
-		return
+	var files []string
+	if st, err := os.Stat(a["in"]); err == nil && st.IsDir() {
+		files, _ = filepath.Glob(filepath.Join(a["in"], "*.json"))
+	} else if err == nil {
+		files = []string{a["in"]}
 	}
 	r := &runner{replays: a["replaydir"]}
 	defer r.close()
-	for _, line := range strings.Split(string(data), "\n") {
-		if strings.TrimSpace(line) == "" || strings.HasPrefix(line, "#") {
-			continue
-		}
-		p := strings.Split(line, "\t")
-		if len(p) < 4 {
-			continue
-		}
-		var seed uint64
-		var idx, uni int
-		fmt.Sscan(p[0], &seed)
-		fmt.Sscan(p[1], &idx)
-		fmt.Sscan(p[2], &uni)
-		c := fedlab.BuildCase(seed, idx, uni, fedlab.ParseKnobs(p[3]), true)
-		v, err := r.run(c, fmt.Sprintf("corpus/%d/%d/%s", seed, c.CfgIdx(), p[3]))
+	bad := 0
+	for i, f := range files {
+		sc, err := loadSaved(f)
 		if err != nil {
-			out.Line(common.L("c01", fmt.Sprintf("(id %d %d %d %s)", seed, idx, uni, common.QS(p[3])), "(laberror "+common.QS(err.Error())+")"))
+			out.Line(common.L("c01", "(id 0 0 0 \"\")", "(laberror "+common.QS(err.Error())+")"))
+			continue
+		}
+		c := sc.toCase()
+		v, err := r.run(c, fmt.Sprintf("replay/%d", i))
+		if err != nil {
+			out.Line(common.L("c01", fmt.Sprintf("(id %d %d %d %s)", c.Seed, c.Index, c.UniIdx, common.QS(sc.Knobs)), "(laberror "+common.QS(err.Error())+")"))
 			continue
 		}
 		path := ""
 		if v.LabError == "" && len(v.Failed()) > 0 {
-			path = r.writeReplay(mkReplay(c, v, true, r.lab), "")
+			bad++
+			rp := mkReplay(c, v, true, r.lab)
+			rp.ShrunkFrom = "replay of " + f
+			path = r.writeReplay(rp, "-replay")
+			if path == "" {
+				path = f
+			}
+		}
+		if a["v"] == "1" {
+			b, _ := json.MarshalIndent(mkReplay(c, v, true, r.lab), "", " ")
+			fmt.Fprintln(os.Stderr, string(b))
+			fmt.Fprintln(os.Stderr, "FAILED:", v.Failed(), v.FailDetail(), v.LabError)
 		}
 		out.Line(caseLine(c, v, path))
+	}
+	if bad > 0 && a["out"] == "" {
+		os.Exit(1)
 	}
 }
 
@@ -336,8 +348,8 @@ func main() {
 		cmdGen(a)
 	case "one":
 		cmdOne(a)
-	case "corpus":
-		cmdCorpus(a)
+	case "replay", "corpus":
+		cmdReplay(a)
 	case "shrink":
 		cmdShrink(a)
 	default:
